@@ -435,8 +435,19 @@ def r2(ctx: Ctx) -> None:
     rnames = {n.ast.value.id for n in g.nodes if n.kind == "return" and n.id in g.reachable() and isinstance(n.ast.value, ast.Name)}  # type: ignore[union-attr]
     fin = [n for n in g.nodes if n.kind == "stmt" and isinstance(n.ast, ast.Assign) and norm_text(n.ast.targets[0]) in rnames]
     jn = {norm_text(j.ast) for j in joins}
-    ctx.ob("C17.R2", rp, "the joined path is canonicalised with realpath", fin[0] if fin else None,
-           bool(fin) and all("os.path.realpath" in norm_text(x.ast.value) for x in fin), "resolves '..' and symlinks")  # type: ignore[union-attr]
+    ok_fin = bool(fin) and all("os.path.realpath" in norm_text(x.ast.value) for x in fin)  # type: ignore[union-attr]
+    if not fin:
+        # the value is handed on (to a boundary-check helper analysed in place) instead of being held in a local: every value
+        # returned derives from realpath(<the joined path>)
+        rsl = ctx.slicer(rp)
+        rets_ = effective_returns(ctx, rp)
+        ok_fin = bool(rets_) and all(v is not None and any(
+            isinstance(c, ast.Call) and (dotted(c.func) or "") == "os.path.realpath" and not is_canonical_base_call(ctx, rp, c)
+            and any(norm_text(j.ast) in norm_text(c) or (names_in(c) & {t.id for n_ in g.nodes if n_.kind == "stmt" and isinstance(n_.ast, ast.Assign)
+                                                                            and norm_text(n_.ast.value) in jn for t in n_.ast.targets if isinstance(t, ast.Name)})
+                    for j in joins)
+            for c in rsl.origins(v, r.id)["calls"]) for r, v in rets_)
+    ctx.ob("C17.R2", rp, "the joined path is canonicalised with realpath", fin[0] if fin else None, ok_fin, "resolves '..' and symlinks")
 
 
 def r3(ctx: Ctx) -> None:
@@ -561,6 +572,10 @@ def check(ctx: Ctx) -> None:
     r9_key_roundtrip(ctx, "C17.R5")
     from .c05 import r2 as c05_r2
     # PATHPREFIX (shared generic rule) is reported under C05.R2; C17 relies on R2's commonpath shape instead
+    # "storage listings" are path strings reaching the library too: an escaping LISTED path is rejected (the collection aborts)
+    # rather than classified and acted on under some other spelling
+    from .c07 import r3 as c07_r3
+    ctx.shared(c07_r3, "C07.R3", "C17.R7", "an escaping listed path aborts the collection before anything is classified or deleted")
 
 
 def _rerooting_scenarios(ctx: Ctx, rp: FunctionInfo) -> Optional[List[Tuple[str, object, object]]]:
